@@ -2,8 +2,14 @@
 Theorems: coq/Properties/C08.v over coq/Expr/ExprModel.v (hand-written model of the Pratt parser and the
 operator printers) and the independent spec coq/Expr/ExprSpec.v.
 Tie: three-way correspondence code / extracted model / extracted spec on all shapes up to k binary operators
-plus random deeper expressions and token soups (checks/gen_expr_cases.py)."""
+plus random deeper expressions and token soups (checks/gen_expr_cases.py), under `SELECT <e>` AND inside the
+embedding contexts of checks/expr_contexts.py (every other statement position where an expression of the
+language is parsed or printed: aliases, WITH, WHERE ..., ALTER UPDATE / DELETE, CREATE TABLE keys, column
+defaults, constraints, views, subqueries ...): the reference tree of the spec is context-independent, so the
+subtree EXPLAIN shows at the hole of a context must be the same tree (harness/cmd/exprdump -contexts)."""
+import json
 import os
+import re
 import verif
 
 TRUSTED = [
@@ -11,6 +17,8 @@ TRUSTED = [
     "hand-written model coq/Expr/ExprModel.v of parseExpression/parseBinaryExpression/parseNot/parseUnaryMinus/parseGroupedOrTuple and explainBinaryExpr/collect*Operands/explainUnaryExpr (fragment; everything else is an explicit OutOfFragment), tied to the code by the correspondence run",
     "the progress guard `p.current.Pos == startPos` is modelled as 'same remaining token list' (sound by C13: positions strictly increase)",
     "extraction (ExtrOcamlBasic only), OCaml driver, Go exprdump; tokens come from the real lexer (lexer.Tokenize)",
+    "contexts: the table, the restriction rules and the KNOWN_OPEN exclusions of checks/expr_contexts.py (all listed in coverage.contexts); "
+    "the model covers the expression only — inside a context the CODE is compared with the SPEC's reference tree directly",
 ]
 
 
@@ -21,9 +29,9 @@ def run(rep):
     found = False
     if not any(b["obligation"].startswith("build:") for b in broken):
         if rep.tier == "quick":
-            args = [str(rep.seed), "2000", "--exhaustive", "3", "--soup", "20000", "--run"]
+            args = [str(rep.seed), "4000", "--exhaustive", "3", "--soup", "20000", "--run", "--contexts", "quick"]
         else:
-            args = [str(rep.seed), "20000", "--exhaustive", "4", "--soup", "200000", "--run"]
+            args = [str(rep.seed), "20000", "--exhaustive", "4", "--soup", "200000", "--run", "--contexts", "full"]
         keep = os.path.join(verif.BUILD, "c08_keep")
         rc, out, summ, blocks = verif.run_generator_compare(["python3", os.path.join(verif.ROOT, "checks", "gen_expr_cases.py")] + args + ["--keep", keep, "--max-report", "100000"])
         samples = []
@@ -38,22 +46,44 @@ def run(rep):
         model_bad = [b for b in blocks if b.startswith("MODEL!=CODE") or b.startswith("MODEL-OOF")]
         other_bad = [b for b in blocks if b.startswith("SPEC-")]
         spec_bad.sort(key=len)
-        for b in spec_bad[:5]:
+        # at most one report per context first (the shortest), then the rest
+        picked, seen_ctx, rest = [], set(), []
+        for b in spec_bad:
+            m = re.search(r"\[context ([A-Za-z0-9_]+):", b.splitlines()[0])
+            c = m.group(1) if m else "SELECT"
+            (rest if c in seen_ctx else picked).append(b)
+            seen_ctx.add(c)
+        for b in (picked + rest)[:8]:
             found = True
-            expr = b.splitlines()[0][len("SPEC!=CODE"):].strip()
-            rep.violation("input", "EXPLAIN of SELECT <e> differs from the precedence-climb reference tree: " + expr[:120],
-                          {"expression": expr, "detail": b[:3000]}, input_hex=expr.encode().hex())
+            head = b.splitlines()[0][len("SPEC!=CODE"):].strip()
+            text = head.split("   [", 1)[0].strip()
+            if "[context " in head:
+                rep.violation("input", "EXPLAIN of the context statement does not show the precedence-climb reference tree for the embedded expression: " + text[:160],
+                              {"statement": text, "context": head.split("   [", 1)[1].rstrip("]")[:400], "detail": b[:4000]},
+                              input_hex=text.encode().hex())
+            else:
+                rep.violation("input", "EXPLAIN of SELECT <e> differs from the precedence-climb reference tree: " + text[:120],
+                              {"expression": text, "detail": b[:3000]}, input_hex=text.encode().hex())
         if model_bad or other_bad or (rc != 0 and not spec_bad):
             first = (model_bad + other_bad + [out[-1500:]])[0]
             broken.append({"obligation": "correspondence:parseExpression~ExprModel", "detail": first[:3000],
                            "count": len(model_bad) + len(other_bad)})
+        ctx_ev = None
+        try:
+            ctx_ev = json.load(open(os.path.join(keep, "contexts.json")))
+        except (OSError, ValueError):
+            pass
         rep.coverage.update({
-            "evaluations": summ.get("texts", 0) + summ.get("trees", 0),
+            "evaluations": summ.get("texts", 0) + summ.get("trees", 0) + summ.get("context_evaluations", 0),
+            "context_evaluations": summ.get("context_evaluations", 0),
+            "contexts": ctx_ev,
             "distinct_nontrivial": summ.get("wfx", 0),
             "rule": "all expression shapes with up to 3 (quick) / 4 (thorough) binary operators over one representative per precedence class "
                     "x NOT / minus / parenthesis decorations x operator spellings, random deeper expressions, token soups; three-way: "
                     "code (parser.Parse+Explain of SELECT <e>) vs extracted model vs extracted spec; distinct_nontrivial = distinct surface trees "
-                    "that are well-formed readings (wfx) and were compared with the reference tree",
+                    "that are well-formed readings (wfx) and were compared with the reference tree; every such tree with <= 3 operators "
+                    "(and every random one) is also evaluated inside the embedding contexts (coverage.contexts: statement, cases fed / equal, "
+                    "restriction rules, KNOWN_OPEN exclusions); quick samples the contexts per case (coverage.contexts.sampling), thorough is the full product",
             "samples": [b[:300] for b in blocks[:3]] + samples,
             "summary_line": out.strip().splitlines()[-1] if out.strip() else "",
             "exhaustive": True,
@@ -65,6 +95,14 @@ def run(rep):
 
 def replay(rec):
     import subprocess
+    if rec.get("statement"):
+        st = rec["statement"]
+        p = subprocess.run([os.path.join(verif.BUILD, "exprdump"), "-explain"], input=(st.encode().hex() + "\n").encode(), stdout=subprocess.PIPE)
+        r = p.stdout.decode().strip().split("\t")[-1]
+        print(st)
+        print("parse error: " + bytes.fromhex(r[4:]).decode() if r.startswith("ERR:") else r if r in ("PANIC", "BADHEX") else bytes.fromhex(r).decode())
+        print(rec.get("detail", ""))
+        return 0
     e = rec.get("expression", "")
     p = subprocess.run([os.path.join(verif.BUILD, "exprdump")], input=(e.encode().hex() + "\n").encode(), stdout=subprocess.PIPE)
     line = p.stdout.decode().strip().split("\t")
